@@ -1258,6 +1258,24 @@ def _key(case):
   return vrun.jkey(d)
 
 
+def collision_programs():
+  out = []
+  body = ("    def fail(self):\n        raise ValueError()\n    def un(self, a):\n        return a.q\n"
+          "    def opt(self, c):\n        return 1 if c else None\n")
+  tail = "def g():\n    raise ValueError()\ndef h(a):\n    return a.q\ndef o(c):\n    return 1 if c else None\n"
+  for name in ("Any", "Never", "Optional", "Union", "typing"):
+    places = {
+        "classattr": "class K:\n    %s = 1\n%sclass L:\n%s%s" % (name, body, body, tail),
+        "method": "class K:\n    def %s(self):\n        return 1\n%sclass L:\n%s%s" % (name, body, body, tail),
+        "modvar": "%s = 1\nclass K:\n%s%s" % (name, body, tail),
+        "modfunc": "def %s():\n    return 1\nclass K:\n%s%s" % (name, body, tail),
+        "nestedclass": "class K:\n    class %s:\n        pass\n%s%s" % (name, body, tail),
+        "classname": "class %s:\n%s%s" % (name, body, tail),
+    }
+    out += [places[k] for k in sorted(places)]
+  return out
+
+
 def run(rep, tier, seed):
   types = TYPES7 if tier == "quick" else TYPES13
   # thorough: the 13-type covering family (169 rows per program) on the quick program set plus the
@@ -1293,6 +1311,13 @@ def run(rep, tier, seed):
     if tier != "quick" or i.startswith(("alone:", "flow:assign<-", "flow:outside<-", "flow:default<-", "flow:initattr<-")):
       items.append(("inf", src, [], 0, None))
       ndef += 1
+  # definitions named like the typing names the stub printer needs (Any, Never, Optional ...): the printer then
+  # qualifies its own uses (typing.Never), which the merge must treat like the bare names
+  ncoll = 0
+  for src in collision_programs():
+    compile(src, "<program>", "exec")
+    items.append(("inf", src, [], 0, None))
+    ncoll += 1
   tot, best = {}, {}
   t0 = time.time()
   # everything the workers need is imported before they fork; the generated-stub items each run in a
